@@ -38,10 +38,12 @@ def problems(inst):
     P.append(("zones", A.problem([hot, cold, cold2], ["B", "C", "C"])))
     P.append(("utilities", A.problem([hot, cold], ["A", "A"], utilities=[u("HP", "Hot", T[3] + 2 * step, T[3] + 2 * step), u("LP", "Both", T[1], T[1], dt=d),
                                                                          u("CW", "Cold", T[0] - 2 * step, T[0] - 2 * step)])))
-    P.append(("tree", A.problem([hot, cold, cold2], ["X", "Y", "X/Y"],
-                                zone_tree={"name": "Plant", "type": "Site", "children": [
-                                    {"name": "X", "type": "Process Zone", "children": [{"name": "Y", "type": "Process Zone"}]},
-                                    {"name": "Y", "type": "Process Zone"}]})))
+    # user tree with generic 'Zone' types (rewritten by depth), relative labels (rewritten to full paths) and one stream
+    # labelled with the ROOT name (a child node is appended to the tree for it): everything preparation writes into a tree
+    P.append(("tree", A.problem([hot, cold, cold2, cold], ["X", "Y", "X/Y", "Plant"],
+                                zone_tree={"name": "Plant", "type": "Zone", "children": [
+                                    {"name": "X", "type": "Zone", "children": [{"name": "Y", "type": "Zone"}]},
+                                    {"name": "Y", "type": "Zone"}]})))
     P.append(("options", A.problem([hot, cold], ["D", "D"], options={"DO_BALANCED_CC": False, "DO_VERTICAL_GCC": True, "DT_CONT": 2.5})))
     return P
 
